@@ -254,25 +254,39 @@ func c16DependsOnHeight(w *an.World, ss *an.StateSummary, ev string) bool {
 // error.
 func c16RecoverHandlesNilAction(w *an.World) bool {
 	rec := w.Func("swap", "(*SwapStateMachine).Recover")
+	se := w.Func("swap", "(*SwapStateMachine).SendEvent")
 	if rec == nil {
 		return false
 	}
-	for _, f := range w.Facts(rec) {
-		if !(f.NonNum && f.Rel == "==" && an.EqIs(f, "==", "State.Action", "nil")) &&
-			!(f.NonNum && f.Rel == "==" && an.EqIs(f, "==", "SwapStateMachine.Current", `""`)) {
-			continue
+	// Recover and the in-module helpers it calls synchronously (not SendEvent)
+	fns := []*ssa.Function{rec}
+	for _, ef := range w.Summary(rec).Effects {
+		if f := ef.Info.Static; f != nil && f != se && w.InModule(f) && f.Blocks != nil && ef.In == rec {
+			fns = append(fns, f)
 		}
-		reach := an.ReachBlocks([]*ssa.BasicBlock{f.Edge.To()}, nil, nil)
-		for _, r := range an.Returns(rec) {
-			if !reach[r.Block()] || len(r.Results) != 2 {
+	}
+	for _, fn := range fns {
+		for _, f := range w.Facts(fn) {
+			if !(f.NonNum && f.Rel == "==" && an.EqIs(f, "==", "State.Action", "nil")) &&
+				!(f.NonNum && f.Rel == "==" && an.EqIs(f, "==", "SwapStateMachine.Current", `""`)) {
 				continue
 			}
-			// a path that does not end in a constant non-nil error
-			if an.IsNilConst(r.Results[1]) {
-				return true
-			}
-			if _, isCall := r.Results[1].(*ssa.Extract); isCall {
-				return true // result of SendEvent(...)
+			reach := an.ReachBlocks([]*ssa.BasicBlock{f.Edge.To()}, nil, nil)
+			for _, r := range an.Returns(fn) {
+				if !reach[r.Block()] || len(r.Results) < 2 {
+					continue
+				}
+				last := r.Results[len(r.Results)-1]
+				if !an.IsErrorType(last.Type()) {
+					continue
+				}
+				// a path that does not end in a non-nil error
+				if an.IsNilConst(last) {
+					return true
+				}
+				if _, isCall := last.(*ssa.Extract); isCall {
+					return true // result of SendEvent(...)
+				}
 			}
 		}
 	}
